@@ -24,9 +24,12 @@
   (and (<= (slen p) (slen s)) (= (str_sub s 0 (slen p)) p)))
 (define-fun has_suffix ((s Str) (p Str)) Bool
   (and (<= (slen p) (slen s)) (= (str_sub s (- (slen s) (slen p)) (slen s)) p)))
-; the prefix test as a function symbol (same meaning as has_prefix), so that lemmas about prefixes have a trigger
+; the prefix test as a function symbol (the meaning of has_prefix), so that lemmas about prefixes have a trigger
 (declare-fun pfx (Str Str) Bool)
-(assert (forall ((s Str) (p Str)) (! (= (pfx s p) (has_prefix s p)) :pattern ((pfx s p)))))
+; (stated byte by byte rather than as has_prefix, an equality of strings: facts about prefixes then follow by
+; instantiation alone, without array extensionality, on which the solvers are erratic)
+(assert (forall ((s Str) (p Str)) (! (= (pfx s p) (and (<= (slen p) (slen s))
+    (forall ((i Int)) (! (=> (and (<= 0 i) (< i (slen p))) (= (select (sarr s) i) (select (sarr p) i))) :pattern ((select (sarr s) i)))))) :pattern ((pfx s p)))))
 ; unsafe.StringData / unsafe.String: the bytes behind a data pointer
 (declare-fun str_data (Str) Int)
 (declare-fun str_of (Int Int) Str)
